@@ -2,15 +2,17 @@ package batchresource
 
 // Verification harness for C14 (injected by `go test -overlay`). Executor + recorder only.
 //
-// For every case (a container list with declared batch-cpu request / batch-cpu limit / batch-memory limit,
-// a way of marking the pod, CFS quota enabled or not, a node CPU normalization ratio) it
-//   1. builds a real corev1.Pod and sends it through the real pod mutating webhook
-//      (mutating.PodMutatingHandler.Handle, Create) - that is what writes the extended-resource-spec
-//      annotation the hook reads the per-container amounts from;
-//   2. configures a fresh plugin through its real rule parsers (parseRuleForNodeSLO / parseRuleForNodeMeta);
-//   3. builds PodContext / ContainerContext with the real protocol constructors (FromProxy, FromNri or
-//      FromReconciler, per case) and calls the real hook functions;
-//   4. logs the inputs (reset event) and Response.Resources (hook event).
+// One segment = one pod and one agent (plugin) instance. The reset event carries the pod (container list with the
+// declared batch-cpu request / batch-cpu limit / batch-memory limit, the way the pod is marked, the extended-resource-spec
+// annotation it carries BEFORE admission, if any) and the configuration delivered before the first event; the events are
+//   admit : the real corev1.Pod goes through the real pod mutating webhook (mutating.PodMutatingHandler.Handle, Create) -
+//           that is what writes / rewrites the extended-resource-spec annotation the hook reads the amounts from;
+//   node  : a Node object (cpu-normalization-ratio annotation valid / absent / malformed) goes through the real
+//           parseRuleForNodeMeta of the segment's plugin;
+//   slo   : a NodeSLO goes through the real parseRuleForNodeSLO;
+//   conts : ContainerContext of every container built with the real protocol constructors (FromProxy, FromNri or
+//           FromReconciler, per event) from the ADMITTED pod, real container-level hook functions, Response.Resources logged;
+//   hook  : the same at the pod level (PodContext).
 // Expected values are computed only by TLC (specs/BatchCgroup/BatchCgroupTrace.tla).
 
 import (
@@ -54,15 +56,38 @@ type c14Cont struct {
 	Mem  int64  `json:"mem"` // batch-memory limit, bytes; -1 = not declared
 }
 
-type c14Case struct {
-	Op         string    `json:"op"`
-	Containers []c14Cont `json:"containers"`
-	Mark       string    `json:"mark"`    // label | annotation | ls | none
-	Cfs        bool      `json:"cfs"`     // CFS quota enabled
-	CfsSrc     string    `json:"cfs_src"` // how: default (rule never parsed) | policy (NodeSLO cpu suppress policy)
-	Rnum       int64     `json:"rnum"`    // node CPU normalization ratio = rnum/rden ; rnum = 0: annotation absent
-	Rden       int64     `json:"rden"`
-	Mode       string    `json:"mode"` // proxy | nri | reconciler
+// c14Pre is the extended-resource-spec annotation the pod carries when it reaches the webhook
+type c14Pre struct {
+	Kind string `json:"kind"` // none | equal | subset | superset-ghost | superset-sidecar | amounts | stale | empty | garbage (a label)
+	Raw  string `json:"raw"`  // the annotation value (kind none: no annotation)
+}
+
+// c14Ev is one script event: op + arguments (what the executor reads)
+type c14Ev struct {
+	Op string `json:"op"`
+	// reset
+	Containers []c14Cont `json:"containers,omitempty"`
+	Mark       string    `json:"mark,omitempty"` // label | annotation | ls | none
+	Pre        *c14Pre   `json:"pre,omitempty"`
+	Cfs        bool      `json:"cfs,omitempty"`     // CFS quota enabled before the first event
+	CfsSrc     string    `json:"cfs_src,omitempty"` // how: default (rule never parsed) | policy (NodeSLO cpu suppress policy)
+	// reset (ratio delivered before the first event; rnum = 0: annotation absent) and node (kind valid)
+	Rnum int64 `json:"rnum,omitempty"`
+	Rden int64 `json:"rden,omitempty"`
+	// node
+	Kind  string `json:"kind,omitempty"`  // valid | none | invalid
+	Raw   string `json:"raw,omitempty"`   // kind invalid: the annotation value
+	Other bool   `json:"other,omitempty"` // kind none: the node carries other annotations (else a nil map)
+	// slo
+	Enable bool   `json:"enable,omitempty"`
+	Policy string `json:"policy,omitempty"` // cpuset | cfsQuota | "" (strategy absent)
+	// conts, hook (and, in segments recorded before the events existed, reset)
+	Mode string `json:"mode,omitempty"` // proxy | nri | reconciler
+}
+
+type c14Seg struct {
+	reset c14Ev
+	ops   []c14Ev
 }
 
 type c14Runner struct {
@@ -84,7 +109,7 @@ func newC14Runner(t *testing.T, rec *vu.Recorder) *c14Runner {
 		}}
 }
 
-func c14Pod(c *c14Case) *corev1.Pod {
+func c14Pod(c *c14Ev) *corev1.Pod {
 	pod := &corev1.Pod{
 		TypeMeta:   metav1.TypeMeta{Kind: "Pod", APIVersion: "v1"},
 		ObjectMeta: metav1.ObjectMeta{Namespace: "default", Name: "c14-pod", UID: types.UID("c14-uid")},
@@ -99,6 +124,12 @@ func c14Pod(c *c14Case) *corev1.Pod {
 	case "none":
 	default:
 		panic("c14: unknown mark " + c.Mark)
+	}
+	if c.Pre != nil && c.Pre.Kind != "none" {
+		if pod.Annotations == nil {
+			pod.Annotations = map[string]string{}
+		}
+		pod.Annotations[apiext.AnnotationExtendedResourceSpec] = c.Pre.Raw
 	}
 	for _, cc := range c.Containers {
 		ct := corev1.Container{Name: cc.Name, Image: "busybox"}
@@ -121,8 +152,8 @@ func c14Pod(c *c14Case) *corev1.Pod {
 	return pod
 }
 
-// admit sends the pod through the real mutating webhook (Create) and returns the mutated pod.
-func (r *c14Runner) admit(pod *corev1.Pod) *corev1.Pod {
+// admit sends the pod through the real mutating webhook (Create); returns the mutated pod, or nil when it was refused.
+func (r *c14Runner) admit(pod *corev1.Pod) (mutated *corev1.Pod, patched bool) {
 	raw, err := json.Marshal(pod)
 	if err != nil {
 		r.t.Fatalf("c14: marshal pod: %v", err)
@@ -135,7 +166,7 @@ func (r *c14Runner) admit(pod *corev1.Pod) *corev1.Pod {
 	}}
 	resp := r.handler.Handle(context.TODO(), req)
 	if !resp.Allowed {
-		r.t.Fatalf("c14: webhook refused the pod: %+v", resp.Result)
+		return nil, false
 	}
 	out := raw
 	if len(resp.Patches) > 0 {
@@ -150,16 +181,17 @@ func (r *c14Runner) admit(pod *corev1.Pod) *corev1.Pod {
 		if out, err = patch.Apply(raw); err != nil {
 			r.t.Fatalf("c14: apply patches: %v", err)
 		}
-		r.stats["webhook-mutated"]++
+		patched = true
 	}
-	mutated := &corev1.Pod{}
+	mutated = &corev1.Pod{}
 	if err := json.Unmarshal(out, mutated); err != nil {
 		r.t.Fatalf("c14: unmarshal mutated pod: %v", err)
 	}
-	return mutated
+	return mutated, patched
 }
 
-func c14Plugin(c *c14Case) *plugin {
+// c14Plugin builds a fresh plugin and delivers the configuration of the reset event through the real rule parsers.
+func c14Plugin(c *c14Ev) *plugin {
 	p := newPlugin()
 	switch {
 	case c.Cfs && c.CfsSrc == "default": // rule never parsed: enabled by default
@@ -194,96 +226,148 @@ func c14Res(res *protocol.Resources) vu.Ev {
 	return vu.Ev{"shares": c14Val(res.CPUShares), "quota": c14Val(res.CFSQuota), "mem": c14Val(res.MemoryLimit)}
 }
 
-func (r *c14Runner) run(c *c14Case) {
-	r.rec.Reset(vu.Ev{"containers": c.Containers, "mark": c.Mark, "cfs": c.Cfs, "cfs_src": c.CfsSrc,
-		"rnum": c.Rnum, "rden": c.Rden, "mode": c.Mode})
-	pod := r.admit(c14Pod(c))
-	p := c14Plugin(c)
-	const cgroupParent = "kubepods.slice/kubepods-besteffort.slice/kubepods-besteffort-podc14.slice"
+const c14CgroupParent = "kubepods.slice/kubepods-besteffort.slice/kubepods-besteffort-podc14.slice"
 
-	podCtx := &protocol.PodContext{}
-	contCtx := make([]*protocol.ContainerContext, len(c.Containers))
-	for i := range contCtx {
-		contCtx[i] = &protocol.ContainerContext{}
+type c14Errs []string
+
+func (e *c14Errs) note(where string, err error) {
+	if err != nil {
+		*e = append(*e, where+": "+err.Error())
 	}
-	var errs []string
-	note := func(where string, err error) {
-		if err != nil {
-			errs = append(errs, where+": "+err.Error())
+}
+
+func (e c14Errs) list() []string {
+	if e == nil {
+		return []string{}
+	}
+	return e
+}
+
+// doNode delivers a Node object to the real rule parser of the plugin.
+func (r *c14Runner) doNode(p *plugin, op *c14Ev) {
+	node := &corev1.Node{ObjectMeta: metav1.ObjectMeta{Name: "c14-node"}}
+	switch op.Kind {
+	case "valid":
+		apiext.SetCPUNormalizationRatio(node, float64(op.Rnum)/float64(op.Rden))
+	case "invalid":
+		node.Annotations = map[string]string{apiext.AnnotationCPUNormalizationRatio: op.Raw}
+	case "none":
+		if op.Other {
+			node.Annotations = map[string]string{"c14.verif/other": "x"}
 		}
+	default:
+		panic("c14: unknown node kind " + op.Kind)
 	}
-	switch c.Mode {
+	updated, err := p.parseRuleForNodeMeta(node)
+	rden := op.Rden
+	if rden == 0 {
+		rden = 1
+	}
+	r.rec.Emit(vu.Ev{"op": "node", "kind": op.Kind, "rnum": op.Rnum, "rden": rden, "raw": op.Raw, "other": op.Other,
+		"diag": vu.Ev{"updated": updated, "err": err != nil, "annotation": node.Annotations[apiext.AnnotationCPUNormalizationRatio]}})
+	r.stats["node="+op.Kind]++
+	if err != nil {
+		r.stats["node-parse-error"]++
+	}
+}
+
+// doSLO delivers a NodeSLO to the real rule parser of the plugin.
+func (r *c14Runner) doSLO(p *plugin, op *c14Ev) {
+	spec := &slov1alpha1.NodeSLOSpec{}
+	switch op.Policy {
+	case "":
+	case "cpuset":
+		spec.ResourceUsedThresholdWithBE = &slov1alpha1.ResourceThresholdStrategy{Enable: ptr.To(op.Enable), CPUSuppressPolicy: slov1alpha1.CPUSetPolicy}
+	case "cfsQuota":
+		spec.ResourceUsedThresholdWithBE = &slov1alpha1.ResourceThresholdStrategy{Enable: ptr.To(op.Enable), CPUSuppressPolicy: slov1alpha1.CPUCfsQuotaPolicy}
+	default:
+		panic("c14: unknown policy " + op.Policy)
+	}
+	updated, err := p.parseRuleForNodeSLO(spec)
+	r.rec.Emit(vu.Ev{"op": "slo", "enable": op.Enable, "policy": op.Policy, "diag": vu.Ev{"updated": updated, "err": err != nil}})
+	r.stats[fmt.Sprintf("slo=%s/%v", op.Policy, op.Enable)]++
+}
+
+// doConts runs the container-level hook for every container of the admitted pod.
+func (r *c14Runner) doConts(p *plugin, pod *corev1.Pod, cs []c14Cont, mode string) {
+	ctxs := make([]*protocol.ContainerContext, len(cs))
+	var errs c14Errs
+	switch mode {
 	case "proxy":
 		meta := &runtimeapi.PodSandboxMetadata{Name: pod.Name, Namespace: pod.Namespace, Uid: string(pod.UID)}
-		podCtx.FromProxy(&runtimeapi.PodSandboxHookRequest{PodMeta: meta, Labels: pod.Labels, Annotations: pod.Annotations,
-			CgroupParent: cgroupParent})
-		note("pod", p.SetPodResources(podCtx))
-		for i, cc := range c.Containers {
-			contCtx[i].FromProxy(&runtimeapi.ContainerResourceHookRequest{PodMeta: meta,
+		for i, cc := range cs {
+			ctxs[i] = &protocol.ContainerContext{}
+			ctxs[i].FromProxy(&runtimeapi.ContainerResourceHookRequest{PodMeta: meta,
 				ContainerMeta: &runtimeapi.ContainerMetadata{Name: cc.Name, Id: cc.Name + "-id"},
-				PodLabels:     pod.Labels, PodAnnotations: pod.Annotations, PodCgroupParent: cgroupParent})
-			note(cc.Name, p.SetContainerResources(contCtx[i]))
+				PodLabels:     pod.Labels, PodAnnotations: pod.Annotations, PodCgroupParent: c14CgroupParent})
+			errs.note(cc.Name, p.SetContainerResources(ctxs[i]))
 		}
 	case "nri":
-		sandbox := &nriapi.PodSandbox{Id: "c14-sandbox", Name: pod.Name, Namespace: pod.Namespace, Uid: string(pod.UID),
-			Labels: pod.Labels, Annotations: pod.Annotations,
-			Linux: &nriapi.LinuxPodSandbox{CgroupParent: cgroupParent}}
-		podCtx.FromNri(sandbox)
-		note("pod", p.SetPodResources(podCtx))
-		for i, cc := range c.Containers {
-			contCtx[i].FromNri(sandbox, &nriapi.Container{Id: cc.Name + "-id", PodSandboxId: sandbox.Id, Name: cc.Name})
-			note(cc.Name, p.SetContainerResources(contCtx[i]))
+		sandbox := c14Sandbox(pod)
+		for i, cc := range cs {
+			ctxs[i] = &protocol.ContainerContext{}
+			ctxs[i].FromNri(sandbox, &nriapi.Container{Id: cc.Name + "-id", PodSandboxId: sandbox.Id, Name: cc.Name})
+			errs.note(cc.Name, p.SetContainerResources(ctxs[i]))
 		}
 	case "reconciler":
 		// the cgroup reconciler calls the per-file functions one by one
-		podMeta := &statesinformer.PodMeta{Pod: pod, CgroupDir: cgroupParent}
-		podCtx.FromReconciler(podMeta)
-		note("pod shares", p.SetPodCPUShares(podCtx))
-		note("pod quota", p.SetPodCFSQuota(podCtx))
-		note("pod mem", p.SetPodMemoryLimit(podCtx))
-		for i, cc := range c.Containers {
-			contCtx[i].FromReconciler(podMeta, cc.Name, false)
-			note(cc.Name+" shares", p.SetContainerCPUShares(contCtx[i]))
-			note(cc.Name+" quota", p.SetContainerCFSQuota(contCtx[i]))
-			note(cc.Name+" mem", p.SetContainerMemoryLimit(contCtx[i]))
+		podMeta := &statesinformer.PodMeta{Pod: pod, CgroupDir: c14CgroupParent}
+		for i, cc := range cs {
+			ctxs[i] = &protocol.ContainerContext{}
+			ctxs[i].FromReconciler(podMeta, cc.Name, false)
+			errs.note(cc.Name+" shares", p.SetContainerCPUShares(ctxs[i]))
+			errs.note(cc.Name+" quota", p.SetContainerCFSQuota(ctxs[i]))
+			errs.note(cc.Name+" mem", p.SetContainerMemoryLimit(ctxs[i]))
 		}
 	default:
-		panic("c14: unknown mode " + c.Mode)
+		panic("c14: unknown mode " + mode)
 	}
 	conts := vu.Ev{}
-	for i := range contCtx {
-		conts[c.Containers[i].Name] = c14Res(&contCtx[i].Response.Resources)
-	}
-	if errs == nil {
-		errs = []string{}
-	}
-	_, hasAnno := pod.Annotations[apiext.AnnotationExtendedResourceSpec]
-	r.rec.Emit(vu.Ev{"op": "hook", "obs": vu.Ev{"pod": c14Res(&podCtx.Response.Resources), "containers": conts},
-		"errors": errs, "spec_annotation": hasAnno})
-
-	// generation statistics (non-vacuity report; not a judgement)
-	r.stats["cases"]++
-	r.stats["mark="+c.Mark]++
-	r.stats["mode="+c.Mode]++
-	r.stats[fmt.Sprintf("n=%d", len(c.Containers))]++
-	r.stats[fmt.Sprintf("cfs=%v", c.Cfs)]++
-	r.stats[fmt.Sprintf("ratio=%d/%d", c.Rnum, c.Rden)]++
-	declaring := 0
-	for _, cc := range c.Containers {
-		if cc.Req != c14Absent || cc.Lim != c14Absent || cc.Mem != c14Absent {
-			declaring++
+	for i := range ctxs {
+		conts[cs[i].Name] = c14Res(&ctxs[i].Response.Resources)
+		if ctxs[i].Response.Resources.CFSQuota != nil {
+			r.stats["container-injected"]++
+		} else {
+			r.stats["container-untouched"]++
 		}
 	}
-	switch {
-	case declaring == 0:
-		r.stats["pods-declaring-nothing"]++
-	case declaring < len(c.Containers):
-		r.stats["pods-mixed-declaring"]++
+	r.rec.Emit(vu.Ev{"op": "conts", "mode": mode, "obs": vu.Ev{"containers": conts}, "errors": errs.list()})
+	r.stats["conts mode="+mode]++
+}
+
+func c14Sandbox(pod *corev1.Pod) *nriapi.PodSandbox {
+	return &nriapi.PodSandbox{Id: "c14-sandbox", Name: pod.Name, Namespace: pod.Namespace, Uid: string(pod.UID),
+		Labels: pod.Labels, Annotations: pod.Annotations,
+		Linux: &nriapi.LinuxPodSandbox{CgroupParent: c14CgroupParent}}
+}
+
+// doHook runs the pod-level hook on the admitted pod.
+func (r *c14Runner) doHook(p *plugin, pod *corev1.Pod, mode string) {
+	podCtx := &protocol.PodContext{}
+	var errs c14Errs
+	switch mode {
+	case "proxy":
+		meta := &runtimeapi.PodSandboxMetadata{Name: pod.Name, Namespace: pod.Namespace, Uid: string(pod.UID)}
+		podCtx.FromProxy(&runtimeapi.PodSandboxHookRequest{PodMeta: meta, Labels: pod.Labels, Annotations: pod.Annotations,
+			CgroupParent: c14CgroupParent})
+		errs.note("pod", p.SetPodResources(podCtx))
+	case "nri":
+		podCtx.FromNri(c14Sandbox(pod))
+		errs.note("pod", p.SetPodResources(podCtx))
+	case "reconciler":
+		podCtx.FromReconciler(&statesinformer.PodMeta{Pod: pod, CgroupDir: c14CgroupParent})
+		errs.note("pod shares", p.SetPodCPUShares(podCtx))
+		errs.note("pod quota", p.SetPodCFSQuota(podCtx))
+		errs.note("pod mem", p.SetPodMemoryLimit(podCtx))
 	default:
-		r.stats["pods-all-declaring"]++
+		panic("c14: unknown mode " + mode)
 	}
-	if podCtx.Response.Resources.CFSQuota != nil {
-		if *podCtx.Response.Resources.CFSQuota == -1 {
+	_, hasAnno := pod.Annotations[apiext.AnnotationExtendedResourceSpec]
+	r.rec.Emit(vu.Ev{"op": "hook", "mode": mode, "obs": vu.Ev{"pod": c14Res(&podCtx.Response.Resources)},
+		"errors": errs.list(), "spec_annotation": hasAnno})
+	r.stats["hook mode="+mode]++
+	if q := podCtx.Response.Resources.CFSQuota; q != nil {
+		if *q == -1 {
 			r.stats["pod-quota-unlimited"]++
 		} else {
 			r.stats["pod-quota-limited"]++
@@ -297,6 +381,88 @@ func (r *c14Runner) run(c *c14Case) {
 		} else {
 			r.stats["pod-mem-limited"]++
 		}
+	}
+}
+
+// run executes one segment.
+func (r *c14Runner) run(sg *c14Seg) {
+	c := &sg.reset
+	pre := c.Pre
+	if pre == nil {
+		pre = &c14Pre{Kind: "none"}
+	}
+	rden := c.Rden
+	if rden == 0 {
+		rden = 1
+	}
+	r.rec.Reset(vu.Ev{"containers": c.Containers, "mark": c.Mark, "pre": vu.Ev{"kind": pre.Kind, "raw": pre.Raw},
+		"cfs": c.Cfs, "cfs_src": c.CfsSrc, "rnum": c.Rnum, "rden": rden})
+	p := c14Plugin(c)
+	ops := sg.ops
+	if len(ops) == 0 { // a segment recorded as its reset event only: the pod is admitted and hooked once
+		mode := c.Mode
+		if mode == "" {
+			mode = "proxy"
+		}
+		ops = []c14Ev{{Op: "admit"}, {Op: "conts", Mode: mode}, {Op: "hook", Mode: mode}}
+	}
+	var pod *corev1.Pod // the admitted pod
+	tried := false
+	for i := range ops {
+		op := &ops[i]
+		switch op.Op {
+		case "admit":
+			if tried {
+				panic("c14: a pod is admitted once")
+			}
+			tried = true
+			var patched bool
+			pod, patched = r.admit(c14Pod(c))
+			if pod == nil && pre.Kind != "garbage" {
+				r.t.Fatalf("c14: the webhook refused a pod whose annotations are well-formed (pre=%s %q)", pre.Kind, pre.Raw)
+			}
+			anno := ""
+			if pod != nil {
+				anno = pod.Annotations[apiext.AnnotationExtendedResourceSpec]
+			}
+			r.rec.Emit(vu.Ev{"op": "admit", "obs": vu.Ev{"allowed": pod != nil}, "diag": vu.Ev{"patched": patched, "annotation": anno}})
+			r.stats[fmt.Sprintf("admit pre=%s allowed=%v patched=%v", pre.Kind, pod != nil, patched)]++
+		case "node":
+			r.doNode(p, op)
+		case "slo":
+			r.doSLO(p, op)
+		case "conts", "hook":
+			if pod == nil { // refused (or not yet admitted): the pod does not reach the agent
+				r.stats["skipped-"+op.Op+"-pod-not-admitted"]++
+				continue
+			}
+			if op.Op == "conts" {
+				r.doConts(p, pod, c.Containers, op.Mode)
+			} else {
+				r.doHook(p, pod, op.Mode)
+			}
+		default:
+			panic("c14: unknown op " + op.Op)
+		}
+	}
+
+	// generation statistics (non-vacuity report; not a judgement)
+	r.stats["segments"]++
+	r.stats["mark="+c.Mark]++
+	r.stats[fmt.Sprintf("n=%d", len(c.Containers))]++
+	declaring := 0
+	for _, cc := range c.Containers {
+		if cc.Req != c14Absent || cc.Lim != c14Absent || cc.Mem != c14Absent {
+			declaring++
+		}
+	}
+	switch {
+	case declaring == 0:
+		r.stats["pods-declaring-nothing"]++
+	case declaring < len(c.Containers):
+		r.stats["pods-mixed-declaring"]++
+	default:
+		r.stats["pods-all-declaring"]++
 	}
 }
 
@@ -316,7 +482,7 @@ func c14Name(i int) string { return fmt.Sprintf("c%d", i) }
 
 // c14Env picks configuration number k of the (cfs, ratio) table: cfs off (ratio irrelevant: none and 2.0),
 // cfs on by default / by policy x ratios
-func c14Env(c *c14Case, k int) {
+func c14Env(c *c14Ev, k int) {
 	type env struct {
 		cfs bool
 		src string
@@ -358,6 +524,113 @@ func c14RandVal(rng *rand.Rand, menu []int64, max int64) int64 {
 	}
 }
 
+func c14Declares(cc c14Cont) bool { return cc.Req != c14Absent || cc.Lim != c14Absent || cc.Mem != c14Absent }
+
+// c14Entry is the annotation entry that describes the amounts cc declares
+func c14Entry(cc c14Cont) apiext.ExtendedResourceContainerSpec {
+	e := apiext.ExtendedResourceContainerSpec{Requests: corev1.ResourceList{}, Limits: corev1.ResourceList{}}
+	if cc.Req != c14Absent {
+		e.Requests[apiext.BatchCPU] = *resource.NewQuantity(cc.Req, resource.DecimalSI)
+	}
+	if cc.Lim != c14Absent {
+		e.Limits[apiext.BatchCPU] = *resource.NewQuantity(cc.Lim, resource.DecimalSI)
+	}
+	if cc.Mem != c14Absent {
+		e.Limits[apiext.BatchMemory] = *resource.NewQuantity(cc.Mem, resource.BinarySI)
+	}
+	return e
+}
+
+var c14PreKinds = []string{"equal", "subset", "superset-ghost", "superset-sidecar", "amounts", "stale", "empty", "garbage"}
+
+// c14MakePre builds the annotation a pod with containers cs carries before admission; nil when the kind does not apply
+// to this pod (e.g. superset-sidecar needs a container that declares nothing). k varies the details.
+func c14MakePre(cs []c14Cont, kind string, k int) *c14Pre {
+	phantom := c14Cont{Req: 100, Lim: 100, Mem: 64 << 20} // a limited stale entry (as in a copied annotation)
+	if k%3 == 1 {
+		phantom = c14Cont{Req: 250, Lim: c14Absent, Mem: c14Absent}
+	}
+	spec := apiext.ExtendedResourceSpec{Containers: map[string]apiext.ExtendedResourceContainerSpec{}}
+	var declaring []int
+	for i, cc := range cs {
+		if c14Declares(cc) {
+			declaring = append(declaring, i)
+			spec.Containers[cc.Name] = c14Entry(cc)
+		}
+	}
+	switch kind {
+	case "equal":
+	case "subset":
+		if len(declaring) == 0 {
+			return nil
+		}
+		victim := cs[declaring[k%len(declaring)]]
+		if len(declaring) > 1 && k%2 == 0 {
+			delete(spec.Containers, victim.Name)
+		} else { // the entry lost its limits
+			e := spec.Containers[victim.Name]
+			e.Limits = nil
+			spec.Containers[victim.Name] = e
+		}
+	case "superset-ghost": // an entry for a container the pod does not have
+		spec.Containers["ghost"] = c14Entry(phantom)
+	case "superset-sidecar": // entries for the containers of the pod that declare nothing
+		if len(declaring) == len(cs) {
+			return nil
+		}
+		for _, cc := range cs {
+			if !c14Declares(cc) {
+				spec.Containers[cc.Name] = c14Entry(phantom)
+			}
+		}
+	case "amounts": // the same entries with other amounts
+		if len(declaring) == 0 {
+			return nil
+		}
+		for _, i := range declaring {
+			cc := cs[i]
+			spec.Containers[cc.Name] = c14Entry(c14Cont{Req: 777, Lim: 1777 + int64(k%5), Mem: 12345})
+		}
+	case "stale": // somebody else's annotation
+		spec.Containers = map[string]apiext.ExtendedResourceContainerSpec{"old-main": c14Entry(phantom), "old-side": c14Entry(c14Cont{Req: 10, Lim: 20, Mem: 30})}
+	case "empty":
+		return &c14Pre{Kind: kind, Raw: "{}"}
+	case "garbage":
+		return &c14Pre{Kind: kind, Raw: []string{"{not json", `{"containers": 5}`, `["c0"]`}[k%3]}
+	default:
+		panic("c14: unknown pre kind " + kind)
+	}
+	if len(spec.Containers) == 0 {
+		spec.Containers = nil
+	}
+	raw, err := json.Marshal(spec)
+	if err != nil {
+		panic(err)
+	}
+	return &c14Pre{Kind: kind, Raw: string(raw)}
+}
+
+// deliveries of the configuration menu (family s)
+func c14Deliveries() []c14Ev {
+	return []c14Ev{
+		{Op: "node", Kind: "none"},
+		{Op: "node", Kind: "none", Other: true},
+		{Op: "node", Kind: "valid", Rnum: 1, Rden: 2},
+		{Op: "node", Kind: "valid", Rnum: 1, Rden: 1},
+		{Op: "node", Kind: "valid", Rnum: 5, Rden: 4},
+		{Op: "node", Kind: "valid", Rnum: 3, Rden: 2},
+		{Op: "node", Kind: "valid", Rnum: 2, Rden: 1},
+		{Op: "node", Kind: "invalid", Raw: "abc"},
+		{Op: "node", Kind: "invalid", Raw: "0"},
+		{Op: "node", Kind: "invalid", Raw: "-1.50"},
+		{Op: "node", Kind: "invalid", Raw: ""},
+		{Op: "slo", Policy: "cfsQuota", Enable: true},
+		{Op: "slo", Policy: "cfsQuota", Enable: false},
+		{Op: "slo", Policy: "cpuset", Enable: true},
+		{Op: "slo", Policy: ""},
+	}
+}
+
 func TestVerifC14(t *testing.T) {
 	if !vu.Enabled() {
 		t.Skip("verification harness: VERIF_OUT not set")
@@ -366,21 +639,26 @@ func TestVerifC14(t *testing.T) {
 	defer rec.Close()
 	r := newC14Runner(t, rec)
 
-	// replay: re-execute the reset event(s) of the given segment(s)
+	// replay: re-execute the given segment(s), event by event (op + arguments only)
 	if rp := vu.ReplayPath(); rp != "" {
 		for _, raw := range vu.ReadScripts(rp) {
-			var evs []json.RawMessage
+			var evs []c14Ev
 			if err := json.Unmarshal(raw, &evs); err != nil {
 				t.Fatalf("c14: bad replay script: %v", err)
 			}
+			var sg *c14Seg
 			for _, e := range evs {
-				var c c14Case
-				if err := json.Unmarshal(e, &c); err != nil {
-					t.Fatalf("c14: bad replay event: %v", err)
+				if e.Op == "reset" {
+					if sg != nil {
+						r.run(sg)
+					}
+					sg = &c14Seg{reset: e}
+				} else if sg != nil {
+					sg.ops = append(sg.ops, e)
 				}
-				if c.Op == "reset" {
-					r.run(&c)
-				}
+			}
+			if sg != nil {
+				r.run(sg)
 			}
 		}
 		return
@@ -389,23 +667,36 @@ func TestVerifC14(t *testing.T) {
 	rng := vu.Rand(14)
 	menu := c14Menu()
 	k := int(vu.Seed()) // rotates configurations / modes against the tables, seed dependent
-	mk := func(cs ...c14Cont) *c14Case {
-		c := &c14Case{Mark: "label", Mode: c14Modes[k%len(c14Modes)]}
+	// mk: a BE pod (by label) with the given containers, admitted and hooked once in one mode (rotating)
+	mk := func(cs ...c14Cont) *c14Seg {
+		sg := &c14Seg{reset: c14Ev{Op: "reset", Mark: "label"}}
 		for i, cc := range cs {
 			cc.Name = c14Name(i)
-			c.Containers = append(c.Containers, cc)
+			sg.reset.Containers = append(sg.reset.Containers, cc)
 		}
-		c14Env(c, k/len(c14Modes))
+		c14Env(&sg.reset, k/len(c14Modes))
+		mode := c14Modes[k%len(c14Modes)]
+		sg.ops = []c14Ev{{Op: "admit"}, {Op: "conts", Mode: mode}, {Op: "hook", Mode: mode}}
 		k++
-		return c
+		return sg
+	}
+	setMode := func(sg *c14Seg, mode string) {
+		for i := range sg.ops {
+			if sg.ops[i].Op == "conts" || sg.ops[i].Op == "hook" {
+				sg.ops[i].Mode = mode
+			}
+		}
+	}
+	invoke := func(sg *c14Seg, mode string) {
+		sg.ops = append(sg.ops, c14Ev{Op: "conts", Mode: mode}, c14Ev{Op: "hook", Mode: mode})
 	}
 
 	// (a) one container: the whole menu under every configuration (BE by label)
 	for _, a := range menu {
 		for e := 0; e < c14NEnvs; e++ {
-			c := mk(a)
-			c14Env(c, e)
-			r.run(c)
+			sg := mk(a)
+			c14Env(&sg.reset, e)
+			r.run(sg)
 		}
 	}
 	// (b) two containers: all pairs of the menu, configuration and mode rotating (quick: a seed-dependent 1/17 sample)
@@ -425,9 +716,9 @@ func TestVerifC14(t *testing.T) {
 	// (c) pods that are not best-effort (annotation only, other QoS label, unmarked): must be left untouched
 	for i, a := range menu {
 		for _, mark := range c14Marks[1:] {
-			c := mk(a, menu[(i*7+3)%len(menu)])
-			c.Mark = mark
-			r.run(c)
+			sg := mk(a, menu[(i*7+3)%len(menu)])
+			sg.reset.Mark = mark
+			r.run(sg)
 		}
 	}
 	// (e) pods in which one container declares no batch amount at all (e.g. a sidecar), next to every menu container,
@@ -448,20 +739,136 @@ func TestVerifC14(t *testing.T) {
 	edge := []int64{2, 3, 5, 9, 10, 11, 14, 15, 1001, 1499, 2000, 2501, 255999, 256000}
 	for i, x := range edge {
 		for e := 0; e < c14NEnvs; e++ {
-			c := mk(c14Cont{Req: x, Lim: x, Mem: x})
-			c14Env(c, e)
-			r.run(c)
+			sg := mk(c14Cont{Req: x, Lim: x, Mem: x})
+			c14Env(&sg.reset, e)
+			r.run(sg)
 			y := edge[(i+1+e)%len(edge)]
 			second := c14Cont{Req: y, Lim: y, Mem: c14Absent}
 			if e%2 == 1 {
 				second.Mem = y
 			}
-			c = mk(c14Cont{Req: x, Lim: x, Mem: x}, second)
-			c14Env(c, e)
-			r.run(c)
+			sg = mk(c14Cont{Req: x, Lim: x, Mem: x}, second)
+			c14Env(&sg.reset, e)
+			r.run(sg)
 		}
 	}
-	// (d) seeded random: 1..6 containers, menu values mixed with arbitrary magnitudes, all markings
+
+	// (s) the configuration as state: a fresh agent, then Node / NodeSLO objects delivered one after the other through the
+	//     real rule parsers (ratio set above 1, changed, lowered to <= 1, annotation removed, malformed; cfs quota disabled
+	//     and enabled again), the pod hooked after every delivery. All sequences of length <= 2 of the menu, a sample
+	//     (thorough: all) of those of length 3; pods whose quotas are limited at both levels, with and without a fraction
+	//     after scaling, one with an unlimited container
+	seqPods := [][]c14Cont{
+		{{Req: 1000, Lim: 1000, Mem: 1 << 20}},
+		{{Req: 500, Lim: 500, Mem: 1000}, {Req: 15, Lim: 15, Mem: 15}},
+		{{Req: 999, Lim: 2500, Mem: 1 << 28}, {Req: 1, Lim: 1, Mem: 1}, {Req: 2500, Lim: 1001, Mem: 2500}},
+		{{Req: 2500, Lim: 2500, Mem: 2500}, {Req: 1000, Lim: c14Absent, Mem: 1000}},
+	}
+	dl := c14Deliveries()
+	seqSeg := func(pi int, ds ...c14Ev) *c14Seg {
+		sg := mk(seqPods[pi%len(seqPods)]...)
+		mode := sg.ops[1].Mode
+		sg.reset.Cfs, sg.reset.CfsSrc, sg.reset.Rnum, sg.reset.Rden = true, "default", 0, 1 // fresh agent: no rule parsed yet
+		for _, d := range ds {
+			sg.ops = append(sg.ops, d)
+			invoke(sg, mode)
+		}
+		return sg
+	}
+	ns := 0
+	for _, d1 := range dl {
+		for pi := range seqPods {
+			r.run(seqSeg(pi, d1))
+		}
+		for _, d2 := range dl {
+			r.run(seqSeg(ns, d1, d2))
+			ns++
+			for _, d3 := range dl {
+				if ns++; vu.Thorough() || ns%6 == int(vu.Seed())%6 {
+					r.run(seqSeg(ns, d1, d2, d3))
+				}
+			}
+		}
+	}
+	//     ... and long random histories: deliveries and invocations (of either level, in any mode) freely interleaved
+	nlong := 250
+	if vu.Thorough() {
+		nlong = 6000
+	}
+	for i := 0; i < nlong; i++ {
+		sg := mk(seqPods[rng.Intn(len(seqPods))]...)
+		if rng.Intn(2) == 0 {
+			sg.reset.Cfs, sg.reset.CfsSrc, sg.reset.Rnum, sg.reset.Rden = true, "default", 0, 1
+		}
+		sg.ops = sg.ops[:1] // admit
+		for j, steps := 0, 4+rng.Intn(12); j < steps; j++ {
+			switch x := rng.Intn(10); {
+			case x < 4:
+				d := dl[rng.Intn(len(dl))]
+				if d.Kind == "valid" && rng.Intn(3) == 0 {
+					e := c14ExtraRatios[rng.Intn(len(c14ExtraRatios))]
+					d.Rnum, d.Rden = e[0], e[1]
+				}
+				sg.ops = append(sg.ops, d)
+			case x < 7:
+				invoke(sg, c14Modes[rng.Intn(len(c14Modes))])
+			case x < 8:
+				sg.ops = append(sg.ops, c14Ev{Op: "conts", Mode: c14Modes[rng.Intn(len(c14Modes))]})
+			default:
+				sg.ops = append(sg.ops, c14Ev{Op: "hook", Mode: c14Modes[rng.Intn(len(c14Modes))]})
+			}
+		}
+		invoke(sg, c14Modes[rng.Intn(len(c14Modes))])
+		r.run(sg)
+	}
+
+	// (p) pods that reach the webhook with an extended-resource-spec annotation already present (written by an earlier
+	//     admission, copied from a template or another pod, edited): equal to what the spec declares, a subset, a superset
+	//     (an entry for a container that does not exist / for the containers that declare nothing), other amounts, somebody
+	//     else's, empty, not parseable. The admitted pod is hooked in all three modes (proxy and nri read the annotation
+	//     the webhook left, the reconciler prefers the pod spec)
+	prePods := [][]c14Cont{
+		{{Req: 1000, Lim: 1000, Mem: 1 << 30 >> 2}},
+		{{Req: 1000, Lim: 1000, Mem: 1 << 20}, none},
+		{none, {Req: 2500, Lim: c14Absent, Mem: 1000}},
+		{{Req: 999, Lim: 2500, Mem: 1 << 28}, {Req: 1, Lim: 1, Mem: 1}},
+		{{Req: 500, Lim: 500, Mem: 1000}, none, {Req: 15, Lim: 15, Mem: 15}},
+		{{Req: c14Absent, Lim: 300000, Mem: c14Absent}, {Req: 0, Lim: 0, Mem: 0}},
+		{none},
+		{none, none},
+	}
+	for i, a := range menu { // plus a rotating slice of the menu, alone / next to a sidecar / next to another menu container
+		if i%7 != int(vu.Seed())%7 && !vu.Thorough() {
+			continue
+		}
+		prePods = append(prePods, []c14Cont{a}, []c14Cont{a, none}, []c14Cont{menu[(i*5+2)%len(menu)], a})
+	}
+	np := 0
+	for _, cs := range prePods {
+		for ki, kind := range c14PreKinds {
+			sg := mk(cs...)
+			pre := c14MakePre(sg.reset.Containers, kind, np+ki)
+			if pre == nil {
+				continue
+			}
+			np++
+			sg.reset.Pre = pre
+			c14Env(&sg.reset, np)
+			sg.ops = sg.ops[:1]
+			for mi := range c14Modes {
+				invoke(sg, c14Modes[(np+mi)%len(c14Modes)])
+			}
+			r.run(sg)
+			if kind == "superset-sidecar" || kind == "equal" { // also for pods that are not best-effort: left untouched whatever the annotation says
+				sg = mk(cs...)
+				sg.reset.Pre, sg.reset.Mark = pre, c14Marks[1+np%3]
+				r.run(sg)
+			}
+		}
+	}
+
+	// (d) seeded random: 1..6 containers, menu values mixed with arbitrary magnitudes, all markings; a fifth of the pods
+	//     arrives with a pre-existing annotation, a sixth sees the configuration change between two invocations
 	nrand := 6000
 	if vu.Thorough() {
 		nrand = 150000
@@ -485,17 +892,27 @@ func TestVerifC14(t *testing.T) {
 				}
 			}
 		}
-		c := mk(cs...)
-		c14Env(c, rng.Intn(c14NEnvs))
-		if c.Cfs && rng.Intn(4) == 0 { // further ratios: below 1 (never scales), 1.25, 1.75, 3.0
+		sg := mk(cs...)
+		c14Env(&sg.reset, rng.Intn(c14NEnvs))
+		if sg.reset.Cfs && rng.Intn(4) == 0 { // further ratios: below 1 (never scales), 1.25, 1.75, 3.0
 			x := c14ExtraRatios[rng.Intn(len(c14ExtraRatios))]
-			c.Rnum, c.Rden = x[0], x[1]
+			sg.reset.Rnum, sg.reset.Rden = x[0], x[1]
 		}
-		c.Mode = c14Modes[rng.Intn(len(c14Modes))]
+		mode := c14Modes[rng.Intn(len(c14Modes))]
+		setMode(sg, mode)
 		if rng.Intn(5) == 0 {
-			c.Mark = c14Marks[1+rng.Intn(3)]
+			sg.reset.Mark = c14Marks[1+rng.Intn(3)]
 		}
-		r.run(c)
+		if rng.Intn(5) == 0 {
+			sg.reset.Pre = c14MakePre(sg.reset.Containers, c14PreKinds[rng.Intn(len(c14PreKinds))], rng.Intn(64))
+		}
+		if rng.Intn(6) == 0 {
+			for j, nd := 0, 1+rng.Intn(2); j < nd; j++ {
+				sg.ops = append(sg.ops, dl[rng.Intn(len(dl))])
+			}
+			invoke(sg, mode)
+		}
+		r.run(sg)
 	}
 	keys := make([]string, 0, len(r.stats))
 	for s := range r.stats {
@@ -504,7 +921,7 @@ func TestVerifC14(t *testing.T) {
 	sort.Strings(keys)
 	line := ""
 	for _, s := range keys {
-		line += fmt.Sprintf(" %s=%d", s, r.stats[s])
+		line += fmt.Sprintf(" [%s]=%d", s, r.stats[s])
 	}
 	t.Logf("C14: %d segments, %d events;%s", rec.Segments(), rec.Events(), line)
 	fmt.Printf("C14-STATS:%s\n", line)
